@@ -10,3 +10,6 @@ import IxaiVerif.Gen.SequenceStorage
 import IxaiVerif.Gen.GeometricReservoirStorage
 import IxaiVerif.Gen.UniformReservoirStorage
 import IxaiVerif.Proofs.Tracker
+import IxaiVerif.Props.C10
+import IxaiVerif.Audit.C10
+import IxaiVerif.Driver.Main
